@@ -1,0 +1,52 @@
+// apparmor.d - Full set of apparmor profiles
+// SPDX-License-Identifier: GPL-2.0-only
+
+//go:build verif
+
+// Machine-checked contracts for variable resolution (property C13).
+// Comment-only; see contracts_verif.go.
+package aa
+
+//@ func (Kind).Tok
+//@   opt prop=C13
+//@   pure
+
+//@ func (Rules).GetVariables
+//@   opt prop=C13
+//@   assigns nothing
+//@   loop 1 invariant forall(k, 0, len(res), res[k] != nil)
+//@   loop 1 decreases len(r) - iter(1)
+//@   ensures forall(k, 0, len(result), result[k] != nil)
+
+// resolveValues: no index out of range on the regexp match, errors are returned; the
+// recursion has no decreasing measure (two variables that refer to each other recurse for
+// ever): "decreases 0" records that obligation, which is a known finding.
+//@ func (*AppArmorProfileFile).resolveValues
+//@   opt prop=C13
+//@   assigns nothing
+//@   decreases 0
+//@   loop 1 invariant true
+
+//@   loop 2 invariant true
+
+// Resolve: every preamble rule that is not a variable is kept, no rule is invented, every
+// definition is kept, a second definition of a name is an error, nothing panics.
+//@ func (*AppArmorProfileFile).Resolve
+//@   opt prop=C13
+//@   requires forall(k, 0, len(f.Profiles), f.Profiles[k] != nil)
+//@   assigns f.Preamble, Variable.Values, Profile.Attachments
+//@   loop 1 invariant iter(1) <= len(old(f.Preamble)) && len(preamble) <= iter(1) && f.Preamble == old(f.Preamble)
+//@   loop 1 invariant forall_str(x, imp(has(seen, x), seen[x] != nil))
+//@   loop 1 invariant forall(k, 0, iter(1), imp(!typeIs(old(f.Preamble)[k], "*Variable"), mem(preamble, old(f.Preamble)[k])))
+//@   loop 1 invariant forall_ref(x, imp(mem(preamble, x), mem(old(f.Preamble)[:iter(1)], x)))
+//@   loop 1 invariant forall(k, 0, iter(1), imp((typeIs(old(f.Preamble)[k], "*Variable") && as(old(f.Preamble)[k], "*Variable").Define), mem(preamble, old(f.Preamble)[k]) && has(seen, as(old(f.Preamble)[k], "*Variable").Name)))
+//@   loop 1 invariant forall(j, 0, iter(1), forall(i, 0, j, imp((typeIs(old(f.Preamble)[i], "*Variable") && as(old(f.Preamble)[i], "*Variable").Define) && (typeIs(old(f.Preamble)[j], "*Variable") && as(old(f.Preamble)[j], "*Variable").Define), as(old(f.Preamble)[i], "*Variable").Name != as(old(f.Preamble)[j], "*Variable").Name)))
+//@   loop 1 decreases len(old(f.Preamble)) - iter(1)
+//@   loop 2 invariant true
+//@   loop 3 invariant true
+//@   loop 4 invariant true
+//@   loop 5 invariant true
+//@   ensures imp(result == nil, forall(k, 0, len(old(f.Preamble)), imp(!typeIs(old(f.Preamble)[k], "*Variable"), mem(f.Preamble, old(f.Preamble)[k]))))
+//@   ensures imp(result == nil, forall_ref(x, imp(mem(f.Preamble, x), mem(old(f.Preamble), x))))
+//@   ensures imp(result == nil, forall(k, 0, len(old(f.Preamble)), imp((typeIs(old(f.Preamble)[k], "*Variable") && as(old(f.Preamble)[k], "*Variable").Define), mem(f.Preamble, old(f.Preamble)[k]))))
+//@   ensures imp(result == nil, forall(j, 0, len(old(f.Preamble)), forall(i, 0, j, imp((typeIs(old(f.Preamble)[i], "*Variable") && as(old(f.Preamble)[i], "*Variable").Define) && (typeIs(old(f.Preamble)[j], "*Variable") && as(old(f.Preamble)[j], "*Variable").Define), as(old(f.Preamble)[i], "*Variable").Name != as(old(f.Preamble)[j], "*Variable").Name))))
